@@ -2,6 +2,7 @@ package props
 
 import (
 	"fmt"
+	"strings"
 
 	"github.com/flanglet/kanzi-go/v2/verifharness/model"
 	"github.com/flanglet/kanzi-go/v2/verifharness/sim"
@@ -28,8 +29,25 @@ func validStream(c *Case, res *Result, o GenOpts, maxBlocksFn func(cfg Config) i
 		cfg.Jobs = min(cfg.Jobs, 2)
 		cfg.DecJobs = min(cfg.DecJobs, 2)
 	}
+	legacy := o.LegacyWriter && t.Intn(6) == 0
+	if legacy && t.Intn(2) == 0 {
+		// chains whose stages expand small blocks (the pinned encoder keeps them whatever they cost)
+		exp := []string{"SRT", "SRT", "MTFT", "TEXT", "BWTS", "RANK", "MM", "ZRLT", "SRT"}
+		n := 2 + t.Intn(7)
+		parts := make([]string, n)
+		for i := range parts {
+			parts[i] = exp[t.Intn(len(exp))]
+		}
+		cfg.Transform = strings.Join(parts, "+")
+		cfg.BlockSize = 1024 + 16*t.Intn(64)
+		cfg.DecJobs = 2 + t.Intn(3)
+		cfg.Checksum = 0
+		if t.Intn(2) == 0 {
+			cfg.Entropy = []string{"ANS1", "ANS1", "RANGE", "HUFFMAN"}[t.Intn(4)] // large per-block tables on small blocks
+		}
+	}
 	rec := GenDataRecipe(t, cfg.BlockSize, maxBlocks)
-	if o.Geometry {
+	if o.Geometry && !legacy {
 		if g := Geometry(t, &cfg, &rec, c.Thorough()); g != "" {
 			res.Probes["geometry."+g]++
 			if g == "manyblocks" && t.Intn(2) == 0 {
@@ -43,7 +61,22 @@ func validStream(c *Case, res *Result, o GenOpts, maxBlocksFn func(cfg Config) i
 	res.Render["config"] = cfg
 	res.Render["data"] = rec
 	var err error
-	stream, err = plainCompress(cfg, data)
+	if legacy && !cfg.SkipBlocks && cfg.Hint != "smaller" {
+		// a valid stream may also come from an older writer: the pinned reference encoder (kept only
+		// if the reference decoder reads it back with one job, i.e. if it is a valid stream)
+		stream, err = RefCompress(cfg, data)
+		if err == nil {
+			if out, derr := RefDecompress(cfg, stream, 1); derr != nil || diffAt(out, data) >= 0 {
+				err = fmt.Errorf("the reference pair does not round-trip")
+			}
+		}
+		if err == nil {
+			res.Probes["stream.from.pinned.writer"]++
+			res.feat("legacy-writer")
+		}
+	} else {
+		stream, err = plainCompress(cfg, data)
+	}
 	if err != nil {
 		res.Verdict = "skip"
 		res.Detail = "stream could not be produced: " + err.Error()
@@ -115,7 +148,7 @@ func C05(c *Case) *Result {
 	if c.Thorough() {
 		maxJobs = 64
 	}
-	cfg, data, stream, parsed, ok := validStream(c, res, GenOpts{SkipOpt: true, Cheap: t.Intn(8) != 0, MaxJobs: maxJobs, MaxBlock: 8192, ExactHint: true, Headerless: true, MaxChain: 4, Geometry: true},
+	cfg, data, stream, parsed, ok := validStream(c, res, GenOpts{SkipOpt: true, Cheap: t.Intn(8) != 0, MaxJobs: maxJobs, MaxBlock: 8192, ExactHint: true, Headerless: true, MaxChain: 8, Geometry: true, LegacyWriter: true},
 		func(cfg Config) int { return min(3*cfg.DecJobs+2, 70) })
 	if !ok {
 		return res
